@@ -33,7 +33,7 @@ CLAIMED = {
    note=TB + "Closed under the global context.",
    technique="Coq proof (list reasoning); in-Coq evaluation of models and specs on implementation output"),
  'C08': dict(ref='6 C08',
-   text="Coq theorems on the API-level model (every join and filter_tables): allow_missing=False -> no output row involves a row with a missing value; allow_missing=True -> same success, result = the False result ++ the missing pairs, each pair with a missing side exactly once with NaN score (missing_spec for every entry, any n_jobs); apply_matcher rows with a missing side kept iff allow_missing. Tie: both allow_missing values run on every forced pattern of missing values (none/left only/right only/both/all), specs evaluated inside Coq; an exception is a violation.",
+   text="Coq theorems on the API-level model (every join and filter_tables): allow_missing=False -> no output row involves a row with a missing value; allow_missing=True -> same success, result = the False result ++ the missing pairs, each pair with a missing side exactly once with NaN score (missing_spec for every entry, any n_jobs); apply_matcher rows with a missing side kept iff allow_missing. Tie: both allow_missing values run on every forced pattern of missing values (none/left only/right only/both/all), specs evaluated inside Coq; an exception is a violation. The public wrappers jaccard/cosine/dice_join_py are REGENERATED from the source (Gen/WrapperGen.v over the frame model Model/Frame.v) and proved end to end (dropna, projection, split_table, per-chunk loop, concat, missing-value pairs, _id) to produce header_spec + the rows of api_join through the declared projection (generated_*_wrapper_refines_model).",
    note=TB + "C08_exactly_once inherits the real-number axioms from the split_table partition theorem; the rest is closed.",
    technique="Coq proof (API-level refinement, list reasoning); in-Coq evaluation of specs on implementation output"),
  'C09': dict(ref='6 C09',
@@ -41,11 +41,11 @@ CLAIMED = {
    note=TB + AX + "(J/C/D totality). filter_tables empty-pair clause at API level: by correspondence + empty_spec (theorem pending, see DESIGN.md).",
    technique="Coq proof (API-level refinement) ; in-Coq evaluation of specs on implementation output"),
  'C11': dict(ref='6 C11',
-   text="Coq theorems about the projection pipeline composed from the helper functions GENERATED from utils/generic_helper.py (remove_redundant_attrs, get_attrs_to_project, find_output_attribute_indices, get_output_header_from_tables, get_output_row_from_tables): header = documented columns; every projected cell = cell of that attribute in the source row, on the main path and the missing-value path, for None / [] / lists with key, join attribute and repeats. Tie: regenerated each run; header_ok / cells_ok and the generated pipeline evaluated inside Coq on observed frames.",
+   text="Coq theorems about the projection pipeline composed from the helper functions GENERATED from utils/generic_helper.py (remove_redundant_attrs, get_attrs_to_project, find_output_attribute_indices, get_output_header_from_tables, get_output_row_from_tables): header = documented columns; every projected cell = cell of that attribute in the source row, on the main path and the missing-value path, for None / [] / lists with key, join attribute and repeats. Tie: regenerated each run; header_ok / cells_ok and the generated pipeline evaluated inside Coq on observed frames. The public wrappers jaccard/cosine/dice_join_py are REGENERATED from the source (Gen/WrapperGen.v over the frame model Model/Frame.v) and proved end to end (dropna, projection, split_table, per-chunk loop, concat, missing-value pairs, _id) to produce header_spec + the rows of api_join through the declared projection (generated_*_wrapper_refines_model).",
    note=TB + "Closed under the global context. pandas' own projection df[cols] / dropna / DataFrame(rows, columns) are modelled (first column of a name).",
    technique="Coq proof over translated helper functions; in-Coq evaluation of model and spec on implementation output"),
  'C12': dict(ref='6 C12',
-   text="Coq theorems over the control skeletons and mutation summaries REGENERATED from the AST of every entry point: every exit (return or raise, any outcome of validations and early returns) hands the tokenizer flag back as received; hence any call sequence sharing a tokenizer returns what each call returns in isolation; every in-place operation targets a fresh object except the converters' documented inplace mode. Tie: translator (fail-closed) + random call histories on the real API comparing inputs/tokenizer with snapshots and results with isolated runs.",
+   text="Coq theorems over the control skeletons and mutation summaries REGENERATED from the AST of every entry point: every exit (return or raise -- by a validation or by ANY work statement, the oracle decides --, any outcome of validations and early returns) hands the tokenizer flag back as received (the pre-24d29db source fails this check for five join wrappers); hence any call sequence sharing a tokenizer returns what each call returns in isolation; every in-place operation targets a fresh object except the converters' documented inplace mode. Tie: translator (fail-closed) + random call histories on the real API comparing inputs/tokenizer with snapshots and results with isolated runs. The public wrappers jaccard/cosine/dice_join_py are REGENERATED from the source (Gen/WrapperGen.v over the frame model Model/Frame.v) and proved end to end (dropna, projection, split_table, per-chunk loop, concat, missing-value pairs, _id) to produce header_spec + the rows of api_join through the declared projection (generated_*_wrapper_refines_model).",
    note=TB + "Closed under the global context. Non-mutation of pandas objects is a syntactic effect summary plus harness snapshots; pandas aliasing is not modelled.",
    technique="Coq proof by reflection over regenerated control skeletons; differential call-history runs"),
  'C14': dict(ref='6 C14',
